@@ -24,10 +24,15 @@ PC(exp) == IF exp = "vanilla" THEN "C07" ELSE IF exp = "tbc" THEN "C08" ELSE "C0
 HasF(r, f) == f \in DOMAIN r
 
 \* logged Debug state of a half vs the model's half
+\* (a field that the Debug output no longer shows is not observed; the comparison of output bytes remains)
 StOK(hf, st) ==
     IF hf.exp = "wrath"
-    THEN /\ st.S = hf.st[1] /\ st.i = hf.st[2] /\ st.j = hf.st[3]
-    ELSE st.key = hf.key /\ st.i = hf.st.i /\ st.p = hf.st.p
+    THEN /\ HasF(st, "S") => st.S = hf.st[1]
+         /\ HasF(st, "i") => st.i = hf.st[2]
+         /\ HasF(st, "j") => st.j = hf.st[3]
+    ELSE /\ HasF(st, "key") => st.key = hf.key
+         /\ HasF(st, "i") => st.i = hf.st.i
+         /\ HasF(st, "p") => st.p = hf.st.p
 \* the 4 parked bytes of the wrath client decoder (only meaningful after an attempt that asked for a fifth byte)
 StashOK(hf, st) == HasF(st, "stash") => st.stash = hf.stash
 \* two logged states are the same
@@ -163,7 +168,8 @@ TrWrathAttempt ==
                        <<"C10.roundtrip", e.res.kind = "ok" => SentSrv(e, e.res.header)>>,
                        <<"C10.header", (e.res.kind = "ok" /\ hout'.kind = "ok") => e.res.header = hout'.header>>,
                        <<"C11.agree", HasF(e.raw, "out") =>
-                            (e.st.S = e.raw.st.S /\ e.st.i = e.raw.st.i /\ e.st.j = e.raw.st.j)>>,
+                            ((HasF(e.st, "S") /\ HasF(e.st, "i") /\ HasF(e.st, "j")) =>
+                               (e.st.S = e.raw.st.S /\ e.st.i = e.raw.st.i /\ e.st.j = e.raw.st.j))>>,
                        <<"C10.stash", hout'.kind = "need5" => StashOK(half'[e.h], e.st)>>,
                        <<"C12.clone", HasF(e, "clone") =>
                             (e.res.kind = hout'.kind /\ (e.res.kind = "ok" => (e.res.header = hout'.header /\ SentSrv(e, e.res.header))))>>,
@@ -234,7 +240,8 @@ TrParseHdr ==
            b4 == SubSeq(e.bytes, 1, 4)
            b5 == SubSeq(e.bytes, 1, 5) IN
        /\ UNCHANGED tvars
-       /\ DonePure(<< <<"EXT.parseServer", [size |-> e.server.size, opcode |-> e.server.opcode] = ParseServer(b4)>>,
+       /\ IF HasF(e, "res") THEN DonePure(<< <<"C14.total", FALSE>> >>, {"ParseHdr"}) ELSE
+          DonePure(<< <<"EXT.parseServer", [size |-> e.server.size, opcode |-> e.server.opcode] = ParseServer(b4)>>,
                       <<"EXT.parseClient", [size |-> e.client.size, opcode |-> e.client.opcode] = ParseClient(e.bytes)>>,
                       <<"EXT.parseSmall", [size |-> e.small.size, opcode |-> e.small.opcode] = DecodeSmall(b4)>>,
                       <<"EXT.parseLarge", [size |-> e.large.size, opcode |-> e.large.opcode] = DecodeLarge(b5)>> >>,
